@@ -46,22 +46,24 @@ def _num(x):
     return int(x) if x.is_integer() else x.hex()
 
 
-def norm(v):
-    """normal form of a leaf value: equal values (in the sense of the reader's documentation: numbers by numeric value,
+def norm(v, raw=False):
+    """raw: the value comes from raw h5py (text is stored as bytes there): bytes and str are the same text
+    normal form of a leaf value: equal values (in the sense of the reader's documentation: numbers by numeric value,
     text by characters, arrays by shape and elements) have equal normal forms"""
-    if isinstance(v, bytes):
-        v = v.decode("utf-8", "replace")
+    if isinstance(v, bytes):      # text written as str comes back from a reader as str, not as the bytes HDF5 stores
+        return ("S" if raw else "B", (), (v.decode("utf-8", "replace"),))
     if isinstance(v, str):
         return ("S", (), (str(v),))
     try:
         a = np.asarray(v)
     except ValueError:      # a ragged list (e.g. one array per sample, of different lengths): element by element
-        return ("L", tuple(norm(x) for x in v))
+        return ("L", tuple(norm(x, raw) for x in v))
     if a.dtype.kind == "O" and isinstance(v, (list, tuple)) and any(isinstance(x, (list, tuple, np.ndarray)) for x in v):
-        return ("L", tuple(norm(x) for x in v))
+        return ("L", tuple(norm(x, raw) for x in v))
     if a.dtype.kind in "OSU":
-        flat = tuple(x.decode("utf-8", "replace") if isinstance(x, bytes) else str(x) for x in a.ravel().tolist())
-        return ("S", tuple(a.shape), flat)
+        items = a.ravel().tolist()
+        flat = tuple(x.decode("utf-8", "replace") if isinstance(x, bytes) else str(x) for x in items)
+        return ("B" if (not raw and any(isinstance(x, bytes) for x in items)) else "S", tuple(a.shape), flat)
     if a.dtype.kind in "biufc":
         return ("N", tuple(a.shape), tuple(_num(x) for x in a.ravel().tolist()))
     return ("?", repr(v))
@@ -81,8 +83,8 @@ class Ids:
     def __init__(self):
         self.t = {}
 
-    def id(self, v):
-        key = hashlib.sha1(repr(norm(v)).encode()).hexdigest()
+    def id(self, v, raw=False):
+        key = hashlib.sha1(repr(norm(v, raw)).encode()).hexdigest()
         return self.t.setdefault(key, len(self.t) + 1)
 
 
@@ -206,7 +208,7 @@ class MdWorld:
             return [0] * len(self.cfg.schema)
         if sorted(out) != self.cfg.schema:
             return [-1]
-        return [self.ids.id(out[p]) for p in self.cfg.schema]
+        return [self.ids.id(out[p], raw=True) for p in self.cfg.schema]
 
     def raw_files(self, values=True):
         files = []
